@@ -2,6 +2,7 @@ import Driver.Proto
 import Driver.Dec
 import Driver.Hist
 import Driver.Merge
+import Driver.Leb
 
 open Lean
 
@@ -11,6 +12,7 @@ def handleAll (j : Json) : Json :=
     if o.startsWith "spec." || o.startsWith "dis." then Driver.Dec.handle j
     else if o.startsWith "hist." then Driver.Hist.handle j
     else if o.startsWith "merge." then Driver.Merge.handle j
+    else if o.startsWith "leb." then Driver.Leb.handle j
     else Driver.jerr s!"unknown op {o}"
   | .error e => Driver.jerr e
 
